@@ -148,7 +148,7 @@ func checkC18(c *Ctx, r *Report) {
 		// helper that is handed the buffer (ip_g8.go); the slice and the buffer may be parameters of
 		// the helper, bound to the arguments of the call
 		ip := newIPG2(c, pkg)
-		chunks := ip.g8BufferWrites(fn)
+		chunks := ip.j4BufferWrites(fn) // the bodies of range-over-func loops are code of fn (ip_j4.go)
 		if len(chunks) == 0 {
 			r.Add("C18-wrap", where, "chunk write", c.pos(fn.Pos())).Bad("StringToBody no longer writes bounded chunks of a line (anchor unresolved): lines are not wrapped to the 1000-byte limit")
 		}
@@ -448,6 +448,8 @@ func checkC09(c *Ctx, r *Report) {
 			}
 		})
 	}
+	// a map iterated through package maps (maps.Keys(h) and the like) is the same thing (ip_j4.go)
+	nRanges += j4MapSeqs(c, r, fns)
 	if nRanges == 0 {
 		r.Fail("C09-determinism", "no range over a map reachable from Message.Write (anchor unresolved: Header.Write iterates the header map)")
 	}
@@ -455,12 +457,9 @@ func checkC09(c *Ctx, r *Report) {
 	// ---- C09-delims
 	r.Rule("C09-delims", 3, "terminators agree between writer and reader")
 	{
-		consts := map[string]bool{}
-		for _, ci := range callsTo(write, false, "bufio.Writer.WriteString") {
-			if s, ok := constString(ci.Common().Args[1]); ok {
-				consts[s] = true
-			}
-		}
+		// the literals written to Write's bufio.Writer, by Write itself or by the same-package code it
+		// hands the writer to (ip_j4.go)
+		consts := (&j4Out{root: write}).literals()
 		o := r.Add("C09-delims", fnName(write), "section terminator written", c.pos(write.Pos()))
 		if len(consts) == 1 && consts["\r\n"] {
 			o.OK("every literal terminator written by Message.Write is \"\\r\\n\"")
@@ -477,15 +476,8 @@ func checkC09(c *Ctx, r *Report) {
 		if rs == nil {
 			o.Bad("anchor fbb.readSection not found")
 		} else {
-			accepts := false
-			eachInstr(rs, func(_ *ssa.BasicBlock, _ int, in ssa.Instruction) {
-				if b, ok := in.(*ssa.BinOp); ok && (b.Op == token.NEQ || b.Op == token.EQL) {
-					if s, _ := constString(b.Y); s == "\r\n" {
-						accepts = true
-					}
-				}
-			})
-			if accepts {
+			// the comparison may live in a predicate readSection hands the line to (ip_j4.go)
+			if j4TermCompared(rs) {
 				o.OK("readSection compares the line after a section with \"\\r\\n\"")
 			} else {
 				o.Bad("readSection does not check the section terminator against \"\\r\\n\"")
@@ -727,39 +719,12 @@ func c09Extra(c *Ctx, r *Report) {
 	if fn := c.Func(pkg, "(*Message).Write"); fn == nil {
 		r.Fail("C09-sections", "anchor Message.Write not found")
 	} else {
+		// the loop may live in same-package code Write hands its writer to, and an iteration may write
+		// through a helper that always writes data and CRLF (ip_j4.go)
 		n := 0
-		for _, l := range naturalLoops(fn) {
-			writesData := false
-			for b := range l.body {
-				for _, in := range b.Instrs {
-					if ci, ok := in.(ssa.CallInstruction); ok && callName(ci.Common()) == "bufio.Writer.Write" {
-						writesData = true
-					}
-				}
-			}
-			if !writesData {
-				continue
-			}
+		for _, sl := range (&j4Out{root: fn}).sectionLoops() {
 			n++
-			term := func(b *ssa.BasicBlock) bool {
-				for _, in := range b.Instrs {
-					if ci, ok := in.(ssa.CallInstruction); ok && callName(ci.Common()) == "bufio.Writer.WriteString" {
-						if s, _ := constString(ci.Common().Args[1]); s == "\r\n" {
-							return true
-						}
-					}
-				}
-				return false
-			}
-			data := func(b *ssa.BasicBlock) bool {
-				for _, in := range b.Instrs {
-					if ci, ok := in.(ssa.CallInstruction); ok && callName(ci.Common()) == "bufio.Writer.Write" {
-						return true
-					}
-				}
-				return false
-			}
-			r.Check("C09-sections", fnName(fn), "attachment loop", c.pos(l.header.Instrs[0].Pos()), passesOnEveryIteration(l, term) && passesOnEveryIteration(l, data),
+			r.Check("C09-sections", fnName(sl.fn), "attachment loop", c.pos(j4LoopPos(sl.fn, sl.l)), sl.ok,
 				"every iteration writes the data and the CRLF that ends the section", "an iteration of the attachment loop can skip the data or the terminating CRLF (e.g. for an empty attachment): the File header is still there, so the reader takes the next attachment's first bytes for the terminator - data lost or silently shifted")
 		}
 		if n == 0 {
@@ -819,6 +784,14 @@ func c18Extra(c *Ctx, r *Report) {
 		bad := ""
 		for _, ci := range allCalls(fn) {
 			name := callName(ci.Common())
+			// line iterators ranged over by a range-over-func loop (ip_j4.go)
+			if counted, why := j4LineSeq(c, fn, ci); counted {
+				n++
+				if why != "" {
+					bad = why
+				}
+				continue
+			}
 			sepIdx := -1
 			switch name {
 			case "strings.Cut", "strings.Split", "strings.SplitN", "strings.SplitAfter", "strings.Index", "strings.IndexByte", "strings.IndexAny",
